@@ -1,4 +1,5 @@
 import Aurora.Model.Localstore
+import Aurora.Model.GcWindow
 import Aurora.Model.ChunkPyramid
 import Aurora.Model.ChunkInfo
 /-!
@@ -27,6 +28,12 @@ the real handler makes (observed on the real code with call traces, then transcr
   `DelFile(root, evict closure)`; the reference counts seen by candidate i are those after the
   candidates before it were released; batch deletions are invisible to reads of the same run.
 * `reinit` — chunkinfo restart: tables from the persisted image, reference counts re-derived.
+* `serve` — the retrieval handler answering the peer: `Get(ModeGetRequest)` of the chunk without file
+  context, then `OnChunkTransferred(cid, root, peer, self)`: the availability record the node keeps FOR
+  THE PEER (`chunk-<root>-<peer>`, memory + persisted) is created / gets the chunk's bit.
+* `gcRace` — `gc` with one scripted operation racing with the eviction of the first candidate: it runs
+  after the run has entered `DelFile` for that candidate and before the deletion callback re-checks the
+  dirty addresses (`Model/GcWindow.lean`).
 
 Within one operation the clock is constant (the harness pins `now()` to the op counter), so the
 order of the reads / sets inside one traversal does not matter for anything this model exposes.
@@ -226,6 +233,102 @@ def gc (s : State) (c : Nat) : State × Nat :=
       if done then (s', total + n) else loop fuel s' (total + n)
   let (s1, n) := loop 8 s0 0
   ({ s1 with ls := { s1.ls with capacity := 1000000 } }, n)
+
+/-- `OnChunkTransferred(cid, root, o, target = self)`: `pyramidCheck(root, o, self)` (an unregistered
+    root gets a record for `o` — the target is the node itself, so no pyramid is fetched), then
+    `updateNeighborChunkInfo(root, cid, o)` -/
+def onChunkTransferred (s : State) (f : FileS) (cid : Addr) (o : Ov) : State :=
+  let s1? : Option State := if known s f then some s else putNeighbor s f o
+  match s1? with
+  | none => s
+  | some s1 =>
+    if (s1.ci.mem.presence.lookup f.root).isNone then s1
+    else match putNeighbor s1 f o with
+      | none => s1
+      | some s2 => { s2 with ci := markPresent s2.ci f o cid }
+
+/-- the retrieval handler serving chunk `a` of file `f` to the peer (`a` is stored) -/
+def serve (s : State) (f : FileS) (a : Addr) : State :=
+  let s1 := { s with ls := (Aurora.Localstore.get s.ls .request none a).st }
+  onChunkTransferred s1 f a peer
+
+/-- what `DelFile` hands to the deletion callback for root `r` in node state `s`: `none` = the file is
+    unknown / not traversable (`ErrNotFound`) -/
+def gcPyramid (s : State) (r : Addr) : Option (FileInfo × List (Addr × Nat)) :=
+  match fileOfRoot s r with
+  | none => none
+  | some fi => if fi.enc || !complete s fi.fs then none else some (fi, getUnRepeatChunk s.cp fi.fs)
+
+/-- a collection run in progress at node level: the node state as racing operations see it
+    (`s.ls = run.st`) and the localstore run -/
+structure GcNode where
+  s : State
+  run : Aurora.Localstore.GcRun
+  /-- status of the racing operation once it has run -/
+  fired : Option Nat := none
+
+/-- a racing operation: new node state and status (HTTP status of pin / unpin, 0 for a read) -/
+abbrev RaceOp := State → State × Nat
+
+/-- candidate number `i` (from 0): the racing operation if it is armed for this position, then
+    `DelFile(root, callback)`: pyramid by the reference counts as they are now, re-check of the dirty
+    addresses, eviction; chunkinfo drops its tables only if the callback succeeded -/
+def gcCandidate (race : Option (Nat × RaceOp)) (i : Nat) (g : GcNode)
+    (e : Aurora.Localstore.GcKey × Nat) : GcNode :=
+  let g1 : GcNode := match race with
+    | some (pos, op) =>
+      if i == pos then
+        let (s', code) := op g.s
+        { s := s', run := { g.run with st := s'.ls }, fired := some code }
+      else g
+    | none => g
+  let py := gcPyramid g1.s e.1.addr
+  let (run', evicted) := Aurora.Localstore.gcEvictOne g1.run e (py.map (·.2))
+  let s2 := { g1.s with ls := run'.st }
+  match py, evicted with
+  | some (fi, _), true =>
+    { g1 with s := { s2 with cp := delRootCid s2.cp fi.fs, ci := ChunkInfo.delFile s2.ci fi.fs.root }, run := run' }
+  | _, _ => { g1 with s := s2, run := run' }
+
+def gcCandidates (race : Option (Nat × RaceOp)) : Nat → GcNode →
+    List (Aurora.Localstore.GcKey × Nat) → GcNode
+  | _, g, [] => g
+  | i, g, e :: rest => gcCandidates race (i + 1) (gcCandidate race i g e) rest
+
+/-- one `collectGarbage` run with a racing operation `(roots, op)`: `op` runs inside the `DelFile` call
+    number `roots.length` of the run, provided the run's calls up to there are for exactly `roots`;
+    returns (state, done, collected, status of the operation if it ran) -/
+def gcRunRace (s : State) (race : Option (List Addr × RaceOp)) : State × Bool × Nat × Option Nat :=
+  let r1 := Aurora.Localstore.gcSelect s.ls
+  match r1.out with
+  | .gcSel =>
+    let s0 := { s with ls := r1.st }
+    let armed : Option (Nat × RaceOp) := match race with
+      | some (roots, op) =>
+        if !roots.isEmpty && (r1.st.cands.map (·.1.addr)).take roots.length == roots
+        then some (roots.length - 1, op) else none
+      | none => none
+    let g := gcCandidates armed 0 { s := s0, run := Aurora.Localstore.GcRun.start r1.st } r1.st.cands
+    let r2 := Aurora.Localstore.gcFinish g.run
+    match r2.out with
+    | .gcDone n done _ => ({ g.s with ls := r2.st }, done, n, g.fired)
+    | _ => ({ g.s with ls := r2.st }, true, 0, g.fired)
+  | _ => ({ s with ls := r1.st }, true, 0, none)
+
+/-- `gcr c` / `gcr2 c`: as `gc c`; the racing operation is armed for the first run only (`[root]`: its
+    first `DelFile` call; `[r1, r2]`: its second call, i.e. after the callback of `r1` has decided that
+    file's deletions and before the run's batch is committed) -/
+def gcRace (s : State) (c : Nat) (race : List Addr × RaceOp) : State × Nat × Option Nat :=
+  let s0 := { s with ls := { s.ls with capacity := c } }
+  let rec loop (fuel : Nat) (s : State) (total : Nat) (race : Option (List Addr × RaceOp)) (fired : Option Nat) :
+      State × Nat × Option Nat :=
+    match fuel with
+    | 0 => (s, total, fired)
+    | fuel + 1 =>
+      let (s', done, n, f) := gcRunRace s race
+      if done then (s', total + n, fired.or f) else loop fuel s' (total + n) none (fired.or f)
+  let (s1, n, f) := loop 8 s0 0 (some race) none
+  ({ s1 with ls := { s1.ls with capacity := 1000000 } }, n, f)
 
 /-- roots that have a persisted chunkinfo record -/
 def diskRoots (s : State) : List Addr :=
